@@ -60,6 +60,23 @@ def build(ctx, tier="quick", positions=("column", "table")):
                 except Exception:
                     continue
                 s.e[lp].append((w, Tag("col", True, "name"), n1))
+    if "column" in positions:
+        # ... and as the REFERENCED column of an inline reference: <c> type REFERENCES o ( <kw> )
+        other_t = lm.plain("o", ["o", "ot", "Other", "o_1", "ref_table", "Oth2"])
+        r0 = s.edge(O, lm.kw("REFERENCES", "upper"), Tag("opt:REF", True))
+        r1 = s.edge(r0, other_t, Tag("opt:REF", False, "ref_table"))
+        r2 = s.edge(r1, P["("], Tag("opt:REF", False))
+        r3 = s.new()
+        for k in kws:
+            if k in EXCLUDED_COLUMN:
+                continue
+            for case in ("upper", "other"):
+                try:
+                    w = lm.kw(k, case)
+                except Exception:
+                    continue
+                s.e[r2].append((w, Tag("opt:REF", False, "ref_col"), r3))
+        s.edge(r3, P[")"], Tag("opt:REF", False), O)
     sep = s.new()
     s.edge(O, P[","], Tag("sep", True), sep)
     s.eps(sep, lp)
